@@ -41,6 +41,7 @@ class MThread(object):
         self.pred = None  # enabling predicate while blocked
         self.deadline = None
         self.timed_out = False
+        self.fired_forced = False  # the last timeout of this thread fired because nothing else could run
         self.why = ""  # description of what the thread is blocked on
         self.baton = _rt.Semaphore(0)
         self.os = None
@@ -61,6 +62,7 @@ class MThread(object):
         if self.name == "T?":
             self.name = "T%d" % self.index
         s.threads.append(self)
+        self.created_at = s.nsteps
         self.os = _rt.Thread(target=self._boot, args=(s,), daemon=True)
         self.os.start()
 
@@ -84,6 +86,7 @@ class MThread(object):
         finally:
             sys.settrace(None)
             self.state = "done"
+            self.finished_at = s.nsteps
             if not s.aborting:
                 try:
                     s.thread_finished(self)
@@ -139,6 +142,7 @@ class Scheduler(object):
         self.record_trace = False
         self.fingerprints = None  # set() when state counting is on
         self.abstract = None  # callable -> hashable, harness part of the fingerprint
+        self.postmortem = False  # set while final() inspects the parked world: shim operations never switch
 
     # --- tracing ------------------------------------------------------------
     def _make_tracer(self):
@@ -191,14 +195,17 @@ class Scheduler(object):
                     best = t
         return best
 
-    def _fire(self, t):
+    def _fire(self, t, forced=False):
         self.now = max(self.now, t.deadline)
         t.timed_out = True
+        t.fired_forced = forced
         t.pred = None
         t.deadline = None
 
     # --- the scheduling point -----------------------------------------------------
     def point(self, kind):
+        if self.postmortem:
+            return
         if self.aborting:
             raise Abort()
         me = self.cur
@@ -224,7 +231,7 @@ class Scheduler(object):
                 # timers keep firing but the main thread never completes
                 self._end("livelock")
                 return
-            self._fire(t)
+            self._fire(t, forced=True)
         nopts = len(opts) + (1 if fire is not None else 0)
         if nopts == 1:
             nxt = opts[0]
@@ -275,6 +282,8 @@ class Scheduler(object):
     def block(self, pred, timeout=None, why=""):
         """Blocks the current thread until pred() holds or the (virtual) timeout fires."""
         me = self.cur
+        if self.postmortem:
+            return bool(pred())
         if timeout is not None and timeout <= 0:
             return bool(pred())
         me.pred = pred
@@ -632,7 +641,11 @@ def run_one(main, choices=(), expect=None, timer_budget=0, audited=(), step=None
     ex.thread_errors = [(t.name, t.exc) for t in s.threads if t.exc is not None]
     ex.obs, ex.viols = (None, [])
     if final is not None and s.status != "diverged":
+        s.postmortem = True
+        s.cur = MThread(name="postmortem")
+        s.cur.index = -1
         ex.obs, ex.viols = final(s)
+        s.postmortem = False
     # tear down: every OS thread of this execution must be gone before the next one starts
     s.aborting = True
     for t in s.threads:
